@@ -42,7 +42,7 @@ func (s *strictFs) arm(t *writeTrick) {
 func (s *strictFs) take(name string) *writeTrick {
 	s.mu.Lock()
 	defer s.mu.Unlock()
-	if s.trick != nil && s.trick.path == filepath.Clean(name) {
+	if s.trick != nil && s.trick.keep >= 0 && s.trick.path == filepath.Clean(name) {
 		t := s.trick
 		s.trick = nil
 		return t
@@ -72,6 +72,33 @@ func (f *strictFile) Write(p []byte) (int, error) {
 }
 
 func (f *strictFile) WriteString(str string) (int, error) { return f.Write([]byte(str)) }
+
+// a listing that breaks off: the first half of the names and an I/O error (trick with keep < 0)
+func (f *strictFile) Readdirnames(n int) ([]string, error) {
+	names, err := f.File.Readdirnames(n)
+	if t := f.s.takeList(f.name); t && err == nil {
+		return names[:len(names)/2], &os.PathError{Op: "readdirent", Path: f.name, Err: syscall.EIO}
+	}
+	return names, err
+}
+
+func (f *strictFile) Readdir(n int) ([]os.FileInfo, error) {
+	infos, err := f.File.Readdir(n)
+	if t := f.s.takeList(f.name); t && err == nil {
+		return infos[:len(infos)/2], &os.PathError{Op: "readdirent", Path: f.name, Err: syscall.EIO}
+	}
+	return infos, err
+}
+
+func (s *strictFs) takeList(name string) bool {
+	s.mu.Lock()
+	defer s.mu.Unlock()
+	if s.trick != nil && s.trick.keep < 0 && s.trick.path == filepath.Clean(name) {
+		s.trick = nil
+		return true
+	}
+	return false
+}
 
 // abs: the in-memory back end has no notion of a working directory ("x" and "/x" are different files there); like a
 // process whose working directory is the root, relative names are resolved against "/".
